@@ -561,6 +561,10 @@ class _ExtractMethodParts(ast.RopeNodeVisitor):
         self._check_constraints()
 
     def _get_kind_by_scope(self):
+        if self.info.make_global:
+            # at module level the extracted code is a plain function,
+            # whatever kind of method it is taken from
+            return self.info.kind
         if self._extacting_from_staticmethod():
             return "staticmethod"
         elif self._extracting_from_classmethod():
@@ -569,7 +573,7 @@ class _ExtractMethodParts(ast.RopeNodeVisitor):
 
     def _check_constraints(self):
         if self._extracting_staticmethod() or self._extracting_classmethod():
-            if not self.info.method:
+            if not self.info.method or self.info.make_global:
                 raise RefactoringError(
                     "Cannot extract to staticmethod/classmethod outside class"
                 )
@@ -703,6 +707,12 @@ class _ExtractMethodParts(ast.RopeNodeVisitor):
         if self.info.method and not self.info.make_global:
             if self._extracting_staticmethod() or self._extracting_classmethod():
                 prefix = self.info.scope.parent.pyobject.get_name() + "."
+                self_name = self._get_self_name()
+                if self._extracting_classmethod() and self_name in args:
+                    # the extracted code reads the class: it is the receiver
+                    # of the call, not one of its arguments
+                    args.remove(self_name)
+                    prefix = self_name + "."
             else:
                 self_name = self._get_self_name()
                 if self_name in args:
